@@ -79,6 +79,9 @@ class Stop(BaseException):
     pass
 
 
+Cancelled = object()
+
+
 # --------------------------------------------------------------------------- the real session
 
 
@@ -110,6 +113,8 @@ def exc_code(falcon, ex):
 def value_code(v):
     if v is None:
         return [0]
+    if v is Cancelled:
+        return [4]
     if isinstance(v, str):
         return [1, int(v)]
     if isinstance(v, (bytes, bytearray)):
@@ -127,6 +132,7 @@ class Session:
         self.bufs = []          # mutable buffers the application (or its media handler) owns
         self.sent_events = []   # (trace index, event object, field, snapshot at the call)
         self.send_gates = []
+        self.cancel_gates = []
         self.loop = DetLoop()
         self.results = []
         self.pubs = []
@@ -224,8 +230,24 @@ class Session:
                 raise falcon.HTTPError(op[2])
             if op[1] == 1:
                 raise falcon.HTTPStatus(op[2])
+            if op[1] == 3:
+                # raised by the responder itself (it concerns some other socket)
+                raise falcon.WebSocketDisconnected(op[2] or None)
             raise Generic('scripted')
+        if k == 10:
+            return await self.recv_cancelled(ws)
         return await self.gate()
+
+    async def recv_cancelled(self, ws):
+        """asyncio.wait_for(ws.receive_text(), timeout) whose timeout fires as soon as the receive
+        has parked: the harness runs the receive task alone until it blocks, then cancels it"""
+        t = self.loop.create_task(ws.receive_text())
+        f = self.loop.create_future()
+        self.cancel_gates.append((t, f))
+        await f
+        if t.cancelled():
+            return Cancelled
+        return t.result()
 
     async def script(self, ws, sc):
         try:
@@ -362,7 +384,8 @@ class Session:
             loop.run_callbacks()
             for h in list(loop.ready):
                 o = loop.owner(h)
-                if o is not None and o is not task and h in loop.ready:
+                if o is not None and o is not task and h in loop.ready \
+                        and all(o is not t for t, _ in self.cancel_gates):
                     loop.run_handle(h)
                     loop.run_callbacks()
                     moved = True
@@ -389,6 +412,30 @@ class Session:
                     continue
                 if task.done():
                     break
+                cg = [(t, f) for t, f in self.cancel_gates if not f.done()]
+                if cg:
+                    t, f = cg[0]
+                    for _ in range(100):       # the receive task runs alone until it blocks
+                        loop.run_callbacks()
+                        h2 = loop.handle_of(t)
+                        if h2 is None:
+                            break
+                        loop.run_handle(h2)
+                    if not t.done():
+                        t.cancel()             # the timeout fires
+                        for _ in range(100):
+                            loop.run_callbacks()
+                            h2 = loop.handle_of(t)
+                            if h2 is None:
+                                break
+                            loop.run_handle(h2)
+                    if t.done():
+                        if not t.cancelled() and t.exception() is not None:
+                            f.set_exception(t.exception())
+                        else:
+                            f.set_result(None)
+                        loop.run_callbacks()
+                        continue
                 sg = [f for f in self.send_gates if not f.done()]
                 if sg:
                     self.scribble()
@@ -449,7 +496,7 @@ def run_real(falcon, case):
 # --------------------------------------------------------------------------- generators
 
 OPS_SMALL = [
-    [0, [0], 0], [1, [0], 0], [2, [0, 5, 0]], [3, [0, 6, 2]], [4, 1, 7], [5], [9], [8, 2, 0], [8, 0, 403],
+    [0, [0], 0], [1, [0], 0], [2, [0, 5, 0]], [3, [0, 6, 2]], [4, 1, 7], [5], [9], [10], [8, 2, 0], [8, 0, 403], [8, 3, 1001],
 ]
 
 
@@ -473,8 +520,10 @@ def gen_op(rng):
         return [6]
     if x < 0.80:
         return [7]
-    if x < 0.90:
-        return [8, *rng.choice([[0, 403], [0, 404], [0, 500], [1, 200], [1, 302], [2, 0]])]
+    if x < 0.88:
+        return [8, *rng.choice([[0, 403], [0, 404], [0, 500], [1, 200], [1, 302], [2, 0], [3, 0], [3, 1001], [3, 4000]])]
+    if x < 0.94:
+        return [10]
     return [9]
 
 
@@ -529,7 +578,7 @@ EXC = {0: 'OperationNotAllowed', 1: 'WebSocketDisconnected', 2: 'PayloadTypeErro
        4: 'TypeError', 5: 'OSError', 6: 'other exception', 7: 'AssertionError', 8: 'HTTPError',
        9: 'HTTPStatus', 10: 'scripted exception'}
 OPN = ['accept', 'close', 'send_text', 'send_data', 'send_media', 'receive_text', 'receive_data',
-       'receive_media', 'raise', 'advance']
+       'receive_media', 'raise', 'advance', 'receive_cancelled']
 
 
 def res_str(r):
@@ -560,9 +609,9 @@ def judge(ctx, model, cases, reals, tag):
             op = ops[j]
             mo.append([3, cfgw, pub, op, res])
             idx_m.append((i, j))
-            if op[0] in (5, 6, 7) and (res[0] == 0 or (res[0] == 1 and res[1] == [2])):
+            if op[0] in (5, 6, 7, 10) and res != [0, [4]] and (res[0] == 0 or (res[0] == 1 and res[1] == [2])):
                 if k < len(client):
-                    po.append([4, op[0] - 5, client[k], res])
+                    po.append([4, 0 if op[0] == 10 else op[0] - 5, client[k], res])
                     idx_p.append((i, j))
                 k += 1
     wo, idx_w = [], []
@@ -631,7 +680,7 @@ def judge(ctx, model, cases, reals, tag):
                               dict(detail, at_op=j, op=OPN[op[0]], op_wire=op,
                                    public_state=['unaccepted', 'ready', 'closed'][real['pubs'][j]],
                                    result_class=rc, model_predicts=mrc,
-                                   op_group='receive' if op[0] in (5, 6, 7) else OPN[op[0]]),
+                                   op_group='receive' if op[0] in (5, 6, 7, 10) else OPN[op[0]]),
                               key='misuse-%s-%s-%s' % (OPN[op[0]], real['pubs'][j], rc))
             elif what[0] == 'payload':
                 n_found += 1
